@@ -195,6 +195,12 @@ pub enum LiftExpr {
         index: usize,
         ty: Ty,
     },
+    /// A closure (a value of its environment struct type) as a value of its function type:
+    /// what a closure is wherever it is not bound by `let` and called by that name.
+    EClosureFn {
+        closure: Box<LiftExpr>,
+        ty: Ty,
+    },
 }
 
 impl LiftExpr {
@@ -217,6 +223,7 @@ impl LiftExpr {
             LiftExpr::EToDyn { ty, .. } => ty.clone(),
             LiftExpr::EDynCall { ty, .. } => ty.clone(),
             LiftExpr::EProj { ty, .. } => ty.clone(),
+            LiftExpr::EClosureFn { ty, .. } => ty.clone(),
         }
     }
 }
@@ -237,8 +244,6 @@ struct State<'env> {
     next_id: usize,
     new_functions: Vec<LiftFn>,
     closure_types: IndexMap<String, ClosureTypeInfo>,
-    /// closure structs of an earlier pass: the ones this pass has not come to yet
-    known_apply_fns: IndexMap<String, String>,
     context_stack: Vec<String>,
 }
 
@@ -250,7 +255,6 @@ impl<'env> State<'env> {
             next_id: 0,
             new_functions: Vec::new(),
             closure_types: IndexMap::new(),
-            known_apply_fns: IndexMap::new(),
             context_stack: Vec::new(),
         }
     }
@@ -274,20 +278,16 @@ impl<'env> State<'env> {
         );
     }
 
-    fn is_closure_struct(&self, name: &str) -> bool {
-        self.closure_types.contains_key(name) || self.known_apply_fns.contains_key(name)
-    }
-
     fn closure_struct_for_ty(&self, ty: &Ty) -> Option<String> {
         match ty {
-            Ty::TStruct { name } => self.is_closure_struct(name).then(|| name.clone()),
+            Ty::TStruct { name } => self.closure_types.contains_key(name).then(|| name.clone()),
             _ => None,
         }
     }
 
     fn ty_contains_closure(&self, ty: &Ty) -> bool {
         match ty {
-            Ty::TStruct { name } => self.is_closure_struct(name),
+            Ty::TStruct { name } => self.closure_types.contains_key(name),
             Ty::TTuple { typs } => typs.iter().any(|t| self.ty_contains_closure(t)),
             Ty::TArray { elem, .. } => self.ty_contains_closure(elem),
             Ty::TFunc { params, ret_ty } => {
@@ -305,16 +305,6 @@ impl<'env> State<'env> {
         self.closure_types
             .get(struct_name)
             .map(|info| info.apply_fn.as_str())
-            .or_else(|| self.known_apply_fns.get(struct_name).map(|f| f.as_str()))
-    }
-
-    /// The type of a call of this apply function: its own result type when that is a closure
-    /// (the type written in the program is a function type there).
-    fn apply_call_ty(&self, apply_fn: &str, written: Ty) -> Ty {
-        match self.liftenv.get_func(apply_fn) {
-            Some(Ty::TFunc { ret_ty, .. }) if self.ty_contains_closure(&ret_ty) => *ret_ty,
-            _ => written,
-        }
     }
 
     fn push_context_name(&mut self, name: String) {
@@ -371,52 +361,13 @@ impl Scope {
     }
 }
 
-/// What a pass over the file learns about closures and a later pass needs from its start: the
-/// functions whose result is a closure (with the result type they were given) and the apply
-/// function of every closure struct.
-#[derive(Default, Clone, PartialEq)]
-struct ClosureFacts {
-    func_tys: IndexMap<String, Ty>,
-    apply_fns: IndexMap<String, String>,
-}
-
 pub fn lambda_lift(
     monoenv: GlobalMonoEnv,
     gensym: &Gensym,
     file: MonoFile,
 ) -> (LiftFile, GlobalLiftEnv) {
-    // A function that returns a closure gets its result type when it is lifted. Its callers
-    // may stand before it in the file (or in a package that is lifted earlier), so lift on a
-    // scratch counter until the result types no longer change, then once more for real.
-    let mut facts = ClosureFacts::default();
-    for _ in 0..MAX_LIFT_PASSES {
-        let scratch = gensym.clone();
-        let (_, _, learned) = lift_pass(monoenv.clone(), &scratch, file.clone(), &facts);
-        if learned == facts {
-            break;
-        }
-        facts = learned;
-    }
-    let (lifted, liftenv, _) = lift_pass(monoenv, gensym, file, &facts);
-    (lifted, liftenv)
-}
-
-/// Result types nest at most as deep as closures returning closures are written.
-const MAX_LIFT_PASSES: usize = 16;
-
-fn lift_pass(
-    monoenv: GlobalMonoEnv,
-    gensym: &Gensym,
-    file: MonoFile,
-    facts: &ClosureFacts,
-) -> (LiftFile, GlobalLiftEnv, ClosureFacts) {
     let mut liftenv = GlobalLiftEnv::from_monoenv(monoenv);
-    for (name, ty) in facts.func_tys.iter() {
-        liftenv.insert_func(name.clone(), ty.clone());
-    }
     let mut state = State::new(&mut liftenv, gensym);
-    state.known_apply_fns = facts.apply_fns.clone();
-    let mut learned = ClosureFacts::default();
     let mut toplevels = Vec::new();
 
     for f in file.toplevels.into_iter() {
@@ -454,9 +405,6 @@ fn lift_pass(
             params: f.params.iter().map(|(_, ty)| ty.clone()).collect(),
             ret_ty: Box::new(ret_ty.clone()),
         };
-        if ret_ty != f.ret_ty {
-            learned.func_tys.insert(f.name.clone(), fn_ty.clone());
-        }
         state.liftenv.insert_func(f.name.clone(), fn_ty);
 
         toplevels.push(LiftFn {
@@ -465,19 +413,6 @@ fn lift_pass(
             ret_ty,
             body,
         });
-    }
-
-    for (struct_name, info) in state.closure_types.iter() {
-        learned
-            .apply_fns
-            .insert(struct_name.clone(), info.apply_fn.clone());
-        // a closure whose result is a closure
-        if let Some(apply_ty) = state.liftenv.get_func(&info.apply_fn)
-            && let Ty::TFunc { ret_ty, .. } = &apply_ty
-            && state.ty_contains_closure(ret_ty)
-        {
-            learned.func_tys.insert(info.apply_fn.clone(), apply_ty);
-        }
     }
 
     // Convert newly generated closure apply functions to LiftFn
@@ -490,7 +425,7 @@ fn lift_pass(
         });
     }
 
-    (LiftFile { toplevels }, liftenv, learned)
+    (LiftFile { toplevels }, liftenv)
 }
 
 fn transform_expr(state: &mut State<'_>, scope: &mut Scope, expr: MonoExpr) -> LiftExpr {
@@ -498,9 +433,19 @@ fn transform_expr(state: &mut State<'_>, scope: &mut Scope, expr: MonoExpr) -> L
         MonoExpr::EVar { name, ty } => {
             if let Some(entry) = scope.get(&name) {
                 if let Some(struct_name) = entry.closure_struct.clone() {
-                    LiftExpr::EVar {
+                    // Used as a value (a call by this name is lifted in `ECall`): from here
+                    // on the closure travels as a function value.
+                    let closure = LiftExpr::EVar {
                         name,
                         ty: Ty::TStruct { name: struct_name },
+                    };
+                    if matches!(ty, Ty::TFunc { .. }) {
+                        LiftExpr::EClosureFn {
+                            closure: Box::new(closure),
+                            ty,
+                        }
+                    } else {
+                        closure
                     }
                 } else {
                     LiftExpr::EVar {
@@ -571,7 +516,11 @@ fn transform_expr(state: &mut State<'_>, scope: &mut Scope, expr: MonoExpr) -> L
             LiftExpr::EArray { items, ty }
         }
         MonoExpr::EClosure { params, body, ty } => {
-            transform_closure(state, scope, params, *body, ty, None)
+            let closure = transform_closure(state, scope, params, *body, ty.clone(), None);
+            LiftExpr::EClosureFn {
+                closure: Box::new(closure),
+                ty,
+            }
         }
         MonoExpr::ELet {
             name, value, body, ..
@@ -646,7 +595,11 @@ fn transform_expr(state: &mut State<'_>, scope: &mut Scope, expr: MonoExpr) -> L
             LiftExpr::EWhile { cond, body, ty }
         }
         MonoExpr::EGo { expr, ty } => {
-            let expr = Box::new(transform_expr(state, scope, *expr));
+            // the activation to start is found from the closure's own type
+            let expr = match transform_expr(state, scope, *expr) {
+                LiftExpr::EClosureFn { closure, .. } => closure,
+                other => Box::new(other),
+            };
             LiftExpr::EGo { expr, ty }
         }
         MonoExpr::EConstrGet {
@@ -679,7 +632,11 @@ fn transform_expr(state: &mut State<'_>, scope: &mut Scope, expr: MonoExpr) -> L
             LiftExpr::EBinary { op, lhs, rhs, ty }
         }
         MonoExpr::ECall { func, args, ty } => {
-            let func_expr = transform_expr(state, scope, *func);
+            // a closure that is called keeps its own type: the call is a call of its function
+            let func_expr = match transform_expr(state, scope, *func) {
+                LiftExpr::EClosureFn { closure, .. } => *closure,
+                other => other,
+            };
             let args = args
                 .into_iter()
                 .map(|arg| transform_expr(state, scope, arg))
@@ -702,7 +659,6 @@ fn transform_expr(state: &mut State<'_>, scope: &mut Scope, expr: MonoExpr) -> L
                 });
                 call_args.extend(args);
                 let func_ty = entry.ty.clone();
-                let ty = state.apply_call_ty(apply_fn, ty);
                 return LiftExpr::ECall {
                     func: Box::new(LiftExpr::EVar {
                         name: apply_fn.to_string(),
@@ -712,7 +668,7 @@ fn transform_expr(state: &mut State<'_>, scope: &mut Scope, expr: MonoExpr) -> L
                     ty,
                 };
             }
-            // the callee is a closure value that is not a local: `mk(1)(2)`, `(|x| x + 1)(2)`
+            // the callee is a closure that is not a local: `(|x| x + 1)(2)`
             if let Some(struct_name) = state.closure_struct_for_ty(&func_expr.get_ty())
                 && let Some(apply_fn) = state.apply_fn_for_struct(&struct_name)
             {
@@ -724,7 +680,6 @@ fn transform_expr(state: &mut State<'_>, scope: &mut Scope, expr: MonoExpr) -> L
                 let mut call_args = Vec::with_capacity(args.len() + 1);
                 call_args.push(func_expr);
                 call_args.extend(args);
-                let ty = state.apply_call_ty(&apply_fn, ty);
                 return LiftExpr::ECall {
                     func: Box::new(LiftExpr::EVar {
                         name: apply_fn,
@@ -841,14 +796,6 @@ fn transform_closure(
         state.pop_context_name();
     }
     scope.pop_layer();
-
-    // a closure that returns a closure: like a function that does (see `lambda_lift`)
-    let body_ty = body.get_ty();
-    let ret_ty = if body_ty != ret_ty && state.ty_contains_closure(&body_ty) {
-        body_ty
-    } else {
-        ret_ty
-    };
 
     let mut captured = IndexMap::new();
     let mut bound = bound_names.clone();
@@ -1049,6 +996,9 @@ fn collect_captured(
         }
         LiftExpr::EProj { tuple, .. } => {
             collect_captured(tuple, bound, captured, scope);
+        }
+        LiftExpr::EClosureFn { closure, .. } => {
+            collect_captured(closure, bound, captured, scope);
         }
     }
 }
